@@ -37,10 +37,6 @@ func runWSDeadline(c *core.Ctx) {
 			short := name[strings.LastIndex(name, ".")+1:]
 			construct := "ctx-arg of (*websocket.Conn)." + short
 			ctxArg := call.Call.Args[1]
-			timed := func(v ssa.Value) bool {
-				p := an.PathOf(v)
-				return strings.Contains(p, "call:context.WithTimeout(") && strings.Contains(p, ".SendTimeout")
-			}
 			var problems []string
 			nTimed, nUntimed := 0, 0
 			paths, _ := an.PathsTo(fn, call.Block(), 1024)
@@ -49,35 +45,26 @@ func runWSDeadline(c *core.Ctx) {
 				if !an.Feasible(p) {
 					continue
 				}
-				// the context that reaches the call along this path
-				v := ctxArg
-				if ph, ok := v.(*ssa.Phi); ok {
-					pred := p.Pred(ph.Block())
-					for i, pb := range ph.Block().Preds {
-						if pb == pred {
-							v = ph.Edges[i]
+				for _, dc := range deadlineCases(fn, ctxArg, p, nil, 0) {
+					if dc.timed {
+						nTimed++
+						continue
+					}
+					nUntimed++
+					onlySend := false
+					for _, cp := range dc.conds {
+						if strings.Contains(cp, ".SendTimeout") {
+							onlySend = true
+						}
+						for _, other := range []string{"PingDuration", "RecvRateLimit", "MaxMessageLength", "Logger"} {
+							if strings.Contains(cp, "."+other) {
+								problems = append(problems, fmt.Sprintf("the un-timed path is selected by %s, not by SendTimeout", cp))
+							}
 						}
 					}
-				}
-				if timed(v) {
-					nTimed++
-					continue
-				}
-				nUntimed++
-				onlySend := false
-				for _, cd := range p.Conds() {
-					cp := an.PathOf(cd.V)
-					if strings.Contains(cp, ".SendTimeout") {
-						onlySend = true
+					if !onlySend {
+						problems = append(problems, "an un-timed path is taken without any test of SendTimeout")
 					}
-					for _, other := range []string{"PingDuration", "RecvRateLimit", "MaxMessageLength", "Logger"} {
-						if strings.Contains(cp, "."+other) {
-							problems = append(problems, fmt.Sprintf("the un-timed path is selected by %s, not by SendTimeout", cp))
-						}
-					}
-				}
-				if !onlySend {
-					problems = append(problems, "an un-timed path is taken without any test of SendTimeout")
 				}
 			}
 			uniq := map[string]bool{}
@@ -102,4 +89,78 @@ func runWSDeadline(c *core.Ctx) {
 			c.Bad(nil, k, "deadline-exists", "-", "no path gives this WebSocket operation a SendTimeout deadline at all")
 		}
 	}
+}
+
+// deadlineCase: one way the context handed to a WebSocket operation comes
+// about: with a SendTimeout deadline or without, under which conditions
+// (access paths of the branch conditions, in the terms of the function that
+// performs the operation).
+type deadlineCase struct {
+	timed bool
+	conds []string
+}
+
+// deadlineCases resolves the context value v along path p of fn: phis are
+// selected by the path; a context.WithTimeout(_, …SendTimeout) result is
+// timed; a context produced by a module helper (`ctx, cancel :=
+// relay.withSendTimeout(ctx)`) is whatever the helper's return paths make it,
+// with the helper's own branch conditions added.
+func deadlineCases(fn *ssa.Function, v ssa.Value, p an.Path, in *ssa.CallCommon, depth int) []deadlineCase {
+	pathOf := func(x ssa.Value) string {
+		if in != nil {
+			return an.PathOfIn(x, in)
+		}
+		return an.PathOf(x)
+	}
+	var conds []string
+	for _, cd := range p.Conds() {
+		conds = append(conds, pathOf(cd.V))
+	}
+	for i := 0; i < 8; i++ {
+		ph, ok := v.(*ssa.Phi)
+		if !ok {
+			break
+		}
+		pred := p.Pred(ph.Block())
+		next := ssa.Value(nil)
+		for j, pb := range ph.Block().Preds {
+			if pb == pred {
+				next = ph.Edges[j]
+			}
+		}
+		if next == nil {
+			break
+		}
+		v = next
+	}
+	if vp := pathOf(v); strings.Contains(vp, "call:context.WithTimeout(") && strings.Contains(vp, ".SendTimeout") {
+		return []deadlineCase{{timed: true, conds: conds}}
+	}
+	if ex, ok := v.(*ssa.Extract); ok && ex.Index == 0 && depth < 2 && in == nil {
+		if hc, ok := ex.Tuple.(*ssa.Call); ok {
+			if g := an.StaticCallee(&hc.Call); g != nil && len(g.Blocks) > 0 && g.Pkg != nil && strings.HasPrefix(g.Pkg.Pkg.Path(), an.ModulePrefix) {
+				var out []deadlineCase
+				for _, rb := range an.ReturnBlocks(g) {
+					rv := an.ReturnValues(an.LastInstr(rb).(*ssa.Return))
+					if len(rv) == 0 {
+						continue
+					}
+					qs, _ := an.PathsTo(g, rb, 256)
+					for _, q := range qs {
+						if !an.Feasible(q) {
+							continue
+						}
+						for _, dc := range deadlineCases(g, rv[0], q, &hc.Call, depth+1) {
+							dc.conds = append(append([]string(nil), conds...), dc.conds...)
+							out = append(out, dc)
+						}
+					}
+				}
+				if len(out) > 0 {
+					return out
+				}
+			}
+		}
+	}
+	return []deadlineCase{{timed: false, conds: conds}}
 }
